@@ -31,6 +31,8 @@ type Shared struct {
 }
 
 type guardInfo struct {
+	foreign    bool       // the lock lives in another struct type (lockStruct): found through the root method's receiver
+	lockStruct types.Type
 	decl      GuardDecl
 	structTyp types.Type
 	fieldIdx  int
